@@ -1099,6 +1099,13 @@ impl Check for StopCheck {
             }
         }
         run.set("modify", 0);
+        // resumed runner: after the first report the caller clears the public `stop_reason` field,
+        // possibly inserts a further term and / or passes other rules, and calls `run` again
+        let mut rr = Rng::stream(seed, "rerun");
+        if rr.chance(1, 4) {
+            run.set("rerun", 1 + rr.below(4) as i64);
+            run.set("rerun_rule_shift", rr.below(7) as i64);
+        }
         run
     }
     fn rule(&self) -> &'static str {
@@ -1138,10 +1145,10 @@ impl Check for StopCheck {
         let per_search = run.get("clock_per_search_ms").max(0) as u64 * ms;
         let per_iter = run.get("clock_per_iter_ms").max(0) as u64 * ms;
         let searches = Rc::new(RefCell::new(0u64));
-        let mk_rules = |nm: &mut Naming, searches: Rc<RefCell<u64>>| -> Vec<Rewrite<LA, SimAn>> {
+        let mk_rules_shift = |nm: &mut Naming, searches: Rc<RefCell<u64>>, shift: i64| -> Vec<Rewrite<LA, SimAn>> {
             idxs.iter()
                 .map(|i| {
-                    let rule = &pool[i.rem_euclid(pool.len() as i64) as usize];
+                    let rule = &pool[(i + shift).rem_euclid(pool.len() as i64) as usize];
                     let sc = searches.clone();
                     let on_search: Option<Rc<dyn Fn()>> = Some(Rc::new(move || {
                         *sc.borrow_mut() += 1;
@@ -1153,6 +1160,7 @@ impl Check for StopCheck {
                 })
                 .collect()
         };
+        let mk_rules = |nm: &mut Naming, searches: Rc<RefCell<u64>>| -> Vec<Rewrite<LA, SimAn>> { mk_rules_shift(nm, searches, 0) };
         let iter_limit = run.get("iter_limit").max(0) as usize;
         let node_limit = run.get("node_limit").max(0) as usize;
         let time_limit_ms = run.get("time_limit_ms").max(0) as u64;
@@ -1309,8 +1317,33 @@ impl Check for StopCheck {
                         }
                         Ok(())
                     });
+                let rerun = run.get("rerun");
+                let mut rules = rules;
+                let mut round = 0;
+                let mut shift = 0;
+                let mut prev_iters = 0usize;
+                loop {
+                round += 1;
+                if round == 2 {
+                    // resume: the caller clears the stop reason (a public field documented as "None if it
+                    // hasn't stopped yet"), may insert a term and may pass other rules
+                    runner.stop_reason = None;
+                    if rerun & 1 != 0 {
+                        if let Some(re) = run.ops.iter().find(|o| o.name == "hookterm").map(|o| to_re::<LA>(&o.t[0], &mut s.nm)) {
+                            if catch_op(|| runner.egraph.add_expr(re)).is_err() {
+                                out.discarded = Some("panic".into());
+                                return out;
+                            }
+                        }
+                    }
+                    if rerun & 2 != 0 {
+                        shift = run.get("rerun_rule_shift");
+                        rules = mk_rules_shift(&mut s.nm, searches.clone(), shift);
+                    }
+                    out.bump("runner_resumed");
+                }
                 let rep = catch_op(|| runner.run(&rules));
-                // take the e-graph back
+                // look at the e-graph (it is handed back to the runner for a resumed run)
                 s.eg = std::mem::replace(&mut runner.egraph, new_la_egraph(run));
                 let rep = match rep {
                     Ok(r) => r,
@@ -1329,10 +1362,12 @@ impl Check for StopCheck {
                     out.violations.push(v("report_node_count", format!("report says {} nodes, e-graph has {nodes}", rep.egraph_nodes)));
                     return out;
                 }
-                if rep.iterations > iter_limit + 2 {
-                    out.violations.push(v("iteration_bound", format!("{} iterations with iter_limit {iter_limit}", rep.iterations)));
+                // a run that starts after P completed iterations ends after max(P + 1, limit + 2)
+                if rep.iterations > (iter_limit + 2).max(prev_iters + 1) {
+                    out.violations.push(v("iteration_bound", format!("{} iterations with iter_limit {iter_limit} ({prev_iters} before this call)", rep.iterations)));
                     return out;
                 }
+                prev_iters = rep.iterations;
                 match &rep.stop_reason {
                     StopReason::Saturated => {}
                     StopReason::IterationLimit => {
@@ -1367,7 +1402,7 @@ impl Check for StopCheck {
                 }
                 changed_any = fingerprint(&mut s) != fp0;
                 if matches!(rep.stop_reason, StopReason::Saturated) {
-                    let rules2 = mk_rules(&mut s.nm, Rc::new(RefCell::new(0)));
+                    let rules2 = mk_rules_shift(&mut s.nm, Rc::new(RefCell::new(0)), shift);
                     let before = fingerprint(&mut s);
                     if catch_op(|| apply_rewrites(&mut s.eg, &rules2)).is_err() {
                         out.discarded = Some("panic".into());
@@ -1379,6 +1414,11 @@ impl Check for StopCheck {
                         return out;
                     }
                     out.bump("saturation_rechecked");
+                }
+                if rerun == 0 || round == 2 || s.eg.total_number_of_nodes() > 400 {
+                    break;
+                }
+                runner.egraph = std::mem::replace(&mut s.eg, new_la_egraph(run));
                 }
             }
         }
